@@ -28,6 +28,8 @@ func wsClass(wc model.WeightedCriteria, a model.AlternativeWithCriteria) string 
 	return ""
 }
 
+var c03Sibling *Req
+
 func utilityParamsForSpec(method string, d *model.DecisionMakingParams) SX {
 	p := paramsSX(d.MethodParameters).(sxList)
 	return p[1] // (ws wc) / (owa wc) / (choquet weights crits) → second element
@@ -143,6 +145,13 @@ func init() {
 				// whole request with biases through the real pipeline, DMP captured at Evaluate
 				q := genRequest(r, ReqOpts{Methods: []string{"weightedSum", "owa", "choquetIntegral"}, MaxBiases: 3,
 					Biases: []string{"criteriaOmission", "preferenceReversal", "fatigue", "criteriaConcealment", "criteriaMixing", "anchoring"}})
+				if c03Sibling != nil {
+					q, c03Sibling = c03Sibling, nil // the twin of the previous Choquet request (same numbers, other coalitions)
+				} else if q.Method == "choquetIntegral" && r.chance(0.4) {
+					delete(q.Body, "biases")
+					q.Biases = nil
+					c03Sibling = choquetSibling(q)
+				}
 				dm := q.bind()
 				cap, fs := capturing(q.Method)
 				var choice *model.DecisionMakerChoice
@@ -181,6 +190,17 @@ func init() {
 						ms.Class = wsClassSX(cap.got, *a)
 					}
 					o.Spec(ms, L(A("check-c03"), Str(q.Method), altSX(*a), utilityParamsForSpec(q.Method, cap.got), Num(e.Value())))
+					if _, hasBiases := q.Body["biases"]; q.Method == "choquetIntegral" && !hasBiases {
+						// without biases the capacities in force are the REQUEST's: the formula with the numbers the client sent
+						reqW := map[string]float64{}
+						for k, v := range q.Body["methodParameters"].(J)["weights"].(J) {
+							if f, ok := v.(float64); ok {
+								reqW[canonKeyGo(k)] = f
+							}
+						}
+						ms.Stage = "utility-evaluate-value-request-capacities"
+						o.Spec(ms, L(A("check-c03"), Str(q.Method), altSX(*a), KMapF(reqW), Num(e.Value())))
+					}
 				}
 			}
 		}
